@@ -111,8 +111,8 @@ def obligations():
 
 META = {
     'level': 'other',
-    'explanation': 'One bounded facet of C02, decided on the real code: collect_runtime_types (MIR of the current tree) is executed on a function whose parameter type is a lazily built concrete type (constructor choices are solver decisions); every tuple and reference type occurring at any position of that type must be among the types it returns, because the backend names a Go struct for each of them (tast_ty_to_go_type) and declares only the returned ones. A miss is replayed through the CLI: the emitted Go text is scanned for helper type names that are used but not declared.',
-    'assumptions': ['O2.2 adds a second facet: block-level DCE (same exploration as C09 O9.2) never leaves a use of a variable whose declaration it removed', 'everything else in C02 (Go typing of expressions, unused variables/imports, closures) is outside this claim: there is no Go front end in the sandbox to confirm counterexamples against'],
+    'explanation': 'Bounded facets of C02 (O2.1 below; O2.2 and O2.3 in the assumptions list), decided on the real code: collect_runtime_types (MIR of the current tree) is executed on a function whose parameter type is a lazily built concrete type (constructor choices are solver decisions); every tuple and reference type occurring at any position of that type must be among the types it returns, because the backend names a Go struct for each of them (tast_ty_to_go_type) and declares only the returned ones. A miss is replayed through the CLI: the emitted Go text is scanned for helper type names that are used but not declared.',
+    'assumptions': ['O2.2 adds a second facet: block-level DCE (same exploration as C09 O9.2) never leaves a use of a variable whose declaration it removed', 'O2.3 adds a third facet: import pruning keeps exactly the imports whose binding a remaining call uses', 'everything else in C02 (Go typing of expressions, unused variables, which helper needs which import, closures) is outside this claim: there is no Go front end in the sandbox to confirm counterexamples against'],
     'trusted_base': ['mirsym MIR interpreter', 'library models listed per obligation', 'z3'],
 }
 
